@@ -1,5 +1,5 @@
 (** C11 — websocket sessions follow the subscription protocol for every message sequence. *)
-From GV Require Import Base.Prelude Model.WsProto Proofs.WsProofs Corr.Corr_C11.
+From GV Require Import Base.Prelude Model.WsProto Proofs.WsProofs Model.WsLock Proofs.WsLockProofs Corr.Corr_C11.
 Open Scope string_scope.
 Open Scope list_scope.
 
@@ -56,3 +56,56 @@ Example C11_nonvacuous :
   [OAck; EvExec "1"; EvExec "2"; OData "1"; EvCancel "1"; OComplete "1"; OError "2"; OComplete "2"; EvCancel "2"; OPong;
    OCloseFrame 1000; EvSocketClosed; EvCloseFunc 1000] /\ NoDup (ids_of ls).
 Proof. split; [vm_compute; reflexivity|]. cbn. repeat constructor; cbn; intuition discriminate. Qed.
+
+(** ** "frames are never written concurrently ... the close callback fires once ... results in order": the write
+    discipline (Model.WsLock).  Any number of goroutines of one connection, each with any program of [c.write] and
+    [c.close] calls as the code makes them (every frame sent under the mutex, [closed] read under it), over EVERY
+    interleaving of their lock / begin-write / end-write / unlock steps: *)
+
+(** at most one goroutine is inside a write, the close frame is written at most once and CloseFunc is called exactly
+    as often as the close frame is written *)
+Theorem C11_writes_exclusive_close_once : forall progs tr s,
+  progs_as_written progs = true -> wsrun (wsinit progs) tr = Some s ->
+  (writers_inside s <= 1 /\ close_frames s <= 1 /\ ws_cb s = close_frames s)%nat.
+Proof. exact ws_lock_safety_lemma. Qed.
+Print Assumptions C11_writes_exclusive_close_once.
+
+(** what a goroutine has put on the wire so far, followed by what it still has to write, is its program: each
+    operation's results are on the wire in the order its goroutine produced them, none lost, none repeated *)
+Theorem C11_each_writer_in_program_order : forall progs tr s i t,
+  progs_as_written progs = true -> wsrun (wsinit progs) tr = Some s -> nth_error (ws_thr s) i = Some t ->
+  exists p, nth_error progs i = Some p /\ msgs (proj i (ws_out s)) ++ wmsgs (t_prog t) = wmsgs p.
+Proof. exact ws_writer_order_lemma. Qed.
+Print Assumptions C11_each_writer_in_program_order.
+
+(** the mutex never deadlocks the connection, and every schedule ends within four steps per call: all connection
+    goroutines finish their writes *)
+Theorem C11_writers_never_deadlocked : forall progs tr s,
+  progs_as_written progs = true -> wsrun (wsinit progs) tr = Some s ->
+  (exists i t, nth_error (ws_thr s) i = Some t /\ unfinished t = true) -> exists j, wsstep s j <> None.
+Proof. exact ws_lock_progress_lemma. Qed.
+Print Assumptions C11_writers_never_deadlocked.
+
+Theorem C11_writers_finish_within_bound : forall progs tr s,
+  progs_as_written progs = true -> wsrun (wsinit progs) tr = Some s ->
+  (List.length tr + weight s <= 4 * list_sum (map (@List.length wop) progs))%nat.
+Proof. exact ws_lock_bounded_lemma. Qed.
+Print Assumptions C11_writers_finish_within_bound.
+
+(** the two slips the discipline excludes: a frame sent without the mutex puts two goroutines inside a write; reading
+    [closed] before taking the mutex writes the close frame and calls CloseFunc twice *)
+Theorem C11_unlocked_write_refuted :
+  exists s, (wsrun (wsinit [[WWrite "pong" 1%Z false]; [WWrite "next" 1%Z true]]) [1; 1; 0] = Some s /\ writers_inside s = 2)%nat.
+Proof. exact ws_unlocked_write_witness. Qed.
+Print Assumptions C11_unlocked_write_refuted.
+
+Theorem C11_close_check_outside_lock_refuted :
+  exists s, (wsrun (wsinit [[WClose false]; [WClose false]]) [0; 1; 0; 0; 0; 0; 1; 1; 1] = Some s /\ close_frames s = 2 /\ ws_cb s = 2)%nat.
+Proof. exact ws_close_check_outside_lock_witness. Qed.
+Print Assumptions C11_close_check_outside_lock_refuted.
+
+Example C11_lock_nonvacuous :
+  progs_as_written sample_progs = true /\
+  exists s, (wsrun (wsinit sample_progs) sample_trace = Some s /\ close_frames s = 1 /\ ws_cb s = 1 /\
+             forallb (fun t => negb (unfinished t)) (ws_thr s) = true)%nat.
+Proof. exact ws_sample_runs. Qed.
